@@ -164,6 +164,10 @@ var Entries = []string{
 	"Vue.Render", "Vue.RenderFragment", "Load.Render", "RenderFile", "RenderString", "RenderByte", "RenderReader",
 }
 
+// BaseEntries render straight on the long-lived base template (no New()/Fill() in between): whatever a render
+// leaves in the base template's own state is visible to the next one.
+var BaseEntries = []string{"Base.RenderFile", "Base.RenderString", "Base.Load.Render"}
+
 // Violation is one property violation found by a run.
 type Violation struct {
 	Property  string   `json:"property"`
